@@ -2,6 +2,7 @@ from _helpers import rapid, direct, fuzz
 
 PROPS = {
     "C01": dict(pkg="chain", level="exploration", stages=[
+        direct("preoak", "TestC01PreOak"),
         rapid("rapid", "TestC01", dict(shards=16, checks=150), dict(shards=16, checks=5000, timeout=6000)),
     ]),
     "C17": dict(pkg="chain", level="exploration", stages=[
@@ -27,6 +28,7 @@ PROPS["C03"] = dict(pkg="chain", level="fault_enumeration", stages=[
 ])
 
 PROPS["C19"] = dict(pkg="chain", level="exploration", stages=[
+    direct("prune-crash", "TestC19PruneCrash"),
     rapid("rapid", "TestC19", dict(shards=16, checks=120), dict(shards=16, checks=4000, timeout=7000)),
 ])
 
